@@ -377,6 +377,9 @@ class Tally(StatisticsInterface):
             raise TypeError("tally registered value must be a number")
         if math.isnan(value):
             raise ValueError("tally registered value cannot be nan")
+        if type(value) is not float and type(value) is not int:
+            # e.g. a quantity: a float subclass with arithmetic of its own
+            value = float(value)
         if self._n == 0:
             self._min = +math.inf
             self._max = -math.inf
@@ -907,6 +910,11 @@ class WeightedTally(StatisticsInterface):
             raise ValueError("tally registered value cannot be nan")
         if math.isnan(weight):
             raise ValueError("tally weight cannot be nan")
+        if type(value) is not float and type(value) is not int:
+            # e.g. a quantity: a float subclass with arithmetic of its own
+            value = float(value)
+        if type(weight) is not float and type(weight) is not int:
+            weight = float(weight)
         if weight < 0:
             raise ValueError("tally weight cannot be < 0")
         if self._n == 0:
@@ -1368,6 +1376,11 @@ class TimestampWeightedTally(WeightedTally):
             raise ValueError("tally registered value cannot be nan")
         if math.isnan(timestamp):
             raise ValueError("tally timestamp cannot be nan")
+        if type(timestamp) is not float and type(timestamp) is not int:
+            # e.g. a Duration simulator time: use its plain (si) value
+            timestamp = float(timestamp)
+        if type(value) is not float and type(value) is not int:
+            value = float(value)
         if timestamp < self._last_timestamp:
             raise ValueError("tally timestamp before last timestamp")
         # only calculate when the time interval is larger than 0, 
